@@ -37,6 +37,23 @@ func depReaches(v ssa.Value, pred func(ssa.Value) bool) bool {
 					return true
 				}
 			}
+			// element / field stores into the local (varargs arrays, composite literals)
+			if x.Referrers() != nil {
+				for _, r := range *x.Referrers() {
+					switch r.(type) {
+					case *ssa.IndexAddr, *ssa.FieldAddr:
+						rv := r.(ssa.Value)
+						if rv.Referrers() == nil {
+							continue
+						}
+						for _, rr := range *rv.Referrers() {
+							if st, ok := rr.(*ssa.Store); ok && st.Addr == rv && walk(st.Val, d+1) {
+								return true
+							}
+						}
+					}
+				}
+			}
 			return false
 		}
 		if in, ok := v.(ssa.Instruction); ok {
